@@ -219,3 +219,32 @@ Proof.
   cbv zeta. split; [|split; [reflexivity|vm_compute; discriminate]].
   apply (strided_linear_on_box [1] 5 8 [[4; 1]] [0] [4; 4]). repeat constructor.
 Qed.
+
+(* ---- the Safe class linear_on_box is decidable: a certificate check over the box ------------------- *)
+From Snax Require Model.Tsl Proofs.TslProofs.
+From Snax Require Import Model.C02Check.
+
+Lemma in_box_Forall2 x : forall bounds, in_box x bounds <-> Forall2 (fun i n => 0 <= i < n) x bounds.
+Proof.
+  induction x as [|a x IH]; intros [|b bs]; cbn [in_box].
+  - split; [constructor|trivial].
+  - split; [contradiction|intros H; inversion H].
+  - split; [contradiction|intros H; inversion H].
+  - split.
+    + intros [Ha Hx]. constructor; [exact Ha|apply IH; exact Hx].
+    + intros H. inversion H as [|? ? ? ? Ha Hx]; subst. split; [exact Ha|apply IH; exact Hx].
+Qed.
+
+Theorem linear_on_boxb_sound f bounds : linear_on_boxb f bounds = true -> linear_on_box f bounds.
+Proof.
+  unfold linear_on_boxb. intros H. rewrite forallb_forall in H.
+  exists (resolve f (List.length bounds)). split; [apply resolve_length|].
+  intros x Hx. apply Z.eqb_eq. apply H. apply TslProofs.in_row_major. apply in_box_Forall2. exact Hx.
+Qed.
+
+Theorem linear_on_boxb_complete f bounds : linear_on_box f bounds -> linear_on_boxb f bounds = true.
+Proof.
+  intros Hl. unfold linear_on_boxb. apply forallb_forall. intros x Hx. apply Z.eqb_eq.
+  apply TslProofs.in_row_major in Hx. apply in_box_Forall2 in Hx.
+  rewrite (resolve_linear f bounds Hl x Hx). lia.
+Qed.
